@@ -39,11 +39,13 @@ import (
 
 	"google.golang.org/genproto/googleapis/api/httpbody"
 	"google.golang.org/grpc"
+	"google.golang.org/grpc/codes"
 	"google.golang.org/grpc/credentials/insecure"
 	_ "google.golang.org/grpc/encoding/gzip"
 	"google.golang.org/grpc/metadata"
 	"google.golang.org/grpc/reflection"
 	rpb "google.golang.org/grpc/reflection/grpc_reflection_v1alpha"
+	"google.golang.org/grpc/status"
 	"google.golang.org/protobuf/encoding/protojson"
 	"google.golang.org/protobuf/proto"
 	"google.golang.org/protobuf/reflect/protodesc"
@@ -483,7 +485,9 @@ func c13ProxySetup() *c13Proxy {
 			MessageType: []*descriptorpb.DescriptorProto{{Name: proto.String("M"), Field: []*descriptorpb.FieldDescriptorProto{
 				{Name: proto.String("text"), JsonName: proto.String("text"), Number: proto.Int32(2), Type: &str, Label: &opt}}}},
 			Service: []*descriptorpb.ServiceDescriptorProto{{Name: proto.String("Svc"), Method: []*descriptorpb.MethodDescriptorProto{
-				{Name: proto.String("Un"), InputType: proto.String(".c13p.M"), OutputType: proto.String(".c13p.M")}}}},
+				{Name: proto.String("Un"), InputType: proto.String(".c13p.M"), OutputType: proto.String(".c13p.M")},
+				{Name: proto.String("Bi"), InputType: proto.String(".c13p.M"), OutputType: proto.String(".c13p.M"),
+					ClientStreaming: proto.Bool(true), ServerStreaming: proto.Bool(true)}}}},
 		}
 		fd, err := protodesc.NewFile(fdp, &protoregistry.Files{})
 		if err != nil {
@@ -502,6 +506,28 @@ func c13ProxySetup() *c13Proxy {
 				m := dynamicpb.NewMessage(out)
 				m.Set(out.Fields().ByName("text"), protoreflect.ValueOfString(t))
 				return m, nil
+			},
+			// Bi: echoes; a message whose text starts with "fail:" ends the call with DataLoss while the
+			// client may still be sending
+			Stream: func(method string, in, out protoreflect.MessageDescriptor, ss grpc.ServerStream) error {
+				for {
+					m := dynamicpb.NewMessage(in)
+					if err := ss.RecvMsg(m); err != nil {
+						if err == io.EOF {
+							return nil
+						}
+						return err
+					}
+					t := m.Get(md.Fields().ByName("text")).String()
+					if strings.HasPrefix(t, "fail:") {
+						return status.Error(codes.DataLoss, t)
+					}
+					r := dynamicpb.NewMessage(out)
+					r.Set(out.Fields().ByName("text"), protoreflect.ValueOfString(t))
+					if err := ss.SendMsg(r); err != nil {
+						return err
+					}
+				}
 			},
 		}
 		gs := grpc.NewServer()
@@ -661,7 +687,7 @@ func c13RunB(o *out, input string) {
 // ---------- C13S ----------
 
 var c13Kinds = []string{"http-json", "http-json-gzip", "http-proto", "http-up-gzip", "http-up", "http-down",
-	"grpc", "grpc-gzip", "grpc-bidi", "grpc-bidi-gzip", "grpc-web", "blob-get", "blob-put", "grpc-cancel", "proxy-unary", "proxy-json", "http-path"}
+	"grpc", "grpc-gzip", "grpc-bidi", "grpc-bidi-gzip", "grpc-web", "blob-get", "blob-put", "grpc-cancel", "proxy-unary", "proxy-json", "http-path", "proxy-bidi", "proxy-bidi-fail"}
 
 func (e *c13Env) post(path, ct, accept string, body []byte, gz bool) ([]byte, int, error) {
 	if gz {
@@ -799,6 +825,52 @@ func (e *c13Env) one(kind, id string, r *rng) string {
 			return fmt.Sprintf("%s id=%s err %v", kind, id, err)
 		}
 		return diff(out.Text, t)
+	case "proxy-bidi", "proxy-bidi-fail":
+		// a proxied bidi stream; in the failing variant the backend ends the call with its own status
+		// while the client is still sending: the client must be told that status
+		pe := c13ProxySetup()
+		ctx, cancel := context.WithTimeout(context.Background(), 20*time.Second)
+		defer cancel()
+		cs, err := pe.lb.conn.NewStream(ctx, &grpc.StreamDesc{ClientStreams: true, ServerStreams: true}, "/c13p.Svc/Bi")
+		if err != nil {
+			return fmt.Sprintf("%s id=%s err %v", kind, id, err)
+		}
+		k := 1 + r.intn(4)
+		for i := 0; i < k; i++ {
+			ti := c13Text(fmt.Sprintf("%s.%d", id, i), c13Size(r)%3000)
+			out := &testpb.Message{}
+			if err := cs.SendMsg(&testpb.Message{Text: ti}); err != nil {
+				return fmt.Sprintf("%s id=%s send err %v", kind, id, err)
+			}
+			if err := cs.RecvMsg(out); err != nil {
+				return fmt.Sprintf("%s id=%s recv err %v", kind, id, err)
+			}
+			if d := diff(out.Text, ti); d != "" {
+				return d
+			}
+		}
+		if kind == "proxy-bidi-fail" {
+			want := "fail:" + id
+			cs.SendMsg(&testpb.Message{Text: want})
+			for i := 0; i < 3; i++ { // keep sending while the backend fails
+				if cs.SendMsg(&testpb.Message{Text: c13Text(id+".late", 40)}) != nil {
+					break
+				}
+			}
+			var err error
+			for err == nil {
+				err = cs.RecvMsg(&testpb.Message{})
+			}
+			if st, _ := status.FromError(err); st.Code() != codes.DataLoss || st.Message() != want {
+				return fmt.Sprintf("%s id=%s ended with %v, the backend returned DataLoss %q", kind, id, err, want)
+			}
+			return ""
+		}
+		cs.CloseSend()
+		if err := cs.RecvMsg(&testpb.Message{}); err != io.EOF {
+			return fmt.Sprintf("%s id=%s end err %v", kind, id, err)
+		}
+		return ""
 	case "grpc", "grpc-gzip":
 		in, out := dynamicpb.NewMessage(msgd), dynamicpb.NewMessage(msgd)
 		in.Set(msgd.Fields().ByName("text"), protoreflect.ValueOfString(t))
